@@ -264,6 +264,11 @@ func typeKey(t types.Type) string {
 	return sanitize(types.TypeString(t, func(p *types.Package) string { return p.Name() }))
 }
 
+// chanHeap: the last value sent on each channel of this element type (ghost).
+func (e *Engine) chanHeap(elem types.Type) (string, string) {
+	return "R:chansent_" + typeKey(elem), "(Array Int " + e.sortOf(elem) + ")"
+}
+
 func (e *Engine) elemHeap(elem types.Type) (string, string) {
 	srt := e.sortOf(elem)
 	// backing arrays of slices with different element types never alias: one heap per element type
